@@ -175,16 +175,7 @@ func (e *Env) driveStates(tag string, states []emitted, judgeHist bool, workers 
 				sp.Base = st.Base
 				var local []*Obs
 				for _, c := range st.Hist {
-					if c.name() == "tear" {
-						// a writer died inside write(2): a fragment without newline at the end of the log
-						if f, err := os.OpenFile(store.LogPath(), os.O_APPEND|os.O_WRONLY, 0o644); err == nil {
-							frag := `{"type":"new_task","ts":"2026-01-01T00:00:00Z","data":{"id":"TORN22","uu`
-							if c.str("how") == "full" {
-								frag = `{"type":"unknown_event","ts":"2026-01-01T00:00:00Z","data":{}}`
-							}
-							_, _ = f.WriteString(frag)
-							f.Close()
-						}
+					if sp.pseudo(c) {
 						continue
 					}
 					o := sp.step(c, tag+"/hist")
